@@ -83,4 +83,9 @@ CLAIMED['C07'] = {
     'text': 'For every signal, mask frequency and amplitude (phase count enumerated) the masked IMF is proved to be the documented average; zero amplitude reduces to unmasked extraction; the mask frequency of layer k and its amplitude are proved to follow the ladder / the selected amplitude mode; schedule independence follows from purity (proved: nothing random or global is read) under the assumed order-preserving starmap contract.',
     'note': PROOF_NOTE + 'cos uninterpreted; Pool.starmap contract assumed (OS scheduling is inside that assumption); std is an uninterpreted function of the vector.',
 }
+CLAIMED['C08'] = {
+    'technique': 'deductive: ghost random-stream state threaded through the real source of ensemble_sift / _sift_with_noise / complete_ensemble_sift under an assumed fork-Pool contract quantified over all job-to-worker assignments; obligations: pairwise different stream positions for the members, per-IMF mean, flip-mode mean of +noise/-noise, zero-noise = classic sift, parent-side noise matrix for the complete ensemble; ensemble size and process count enumerated; bounded stand-in: digests of the noisy inputs in parent and forked workers for nensembles x nprocesses <= 4x4 / 8x8',
+    'text': 'For every signal, noise level and every job-to-worker assignment (sizes enumerated) the members are proved to use pairwise different positions of the random stream, the result to be the per-IMF mean over members (each the mean of the two signed decompositions in flip mode) and the zero-noise ensemble to equal the classic sift with the same cap. A counter-assignment found by the solver is replayed on the real pool.',
+    'note': PROOF_NOTE + 'fork-Pool contract and injectivity of the random stream are assumptions; sift is a function of its input (modular).',
+}
 PENDING_REASON = {}
